@@ -32,7 +32,7 @@ impl Engine for ProxyEngine {
         for (c, d) in fails {
             o.fail(&c, &d);
         }
-        if op == "e2e probe" {
+        if op == "e2e probe" || op.starts_with("e2e jprobe ") {
             return "done".into();
         }
         obs
@@ -133,8 +133,13 @@ fn exec_case(p: &mut proxy::Proxy, spec: &CaseSpec) -> CaseOut {
         if let Plan::JoinAll = pl {
             let (c, _) = p.exec("e2e cycle");
             if let Ok(c) = c.trim().parse::<usize>() {
+                // Raptor / RaptorQ with repair symbols: what the decoder makes of a partially received
+                // block + repair symbols is library behaviour (the contract only says "the k source
+                // symbols suffice"): oracle-only runs
+                let lib = |o: params::OtiP| matches!(o.sch, params::Scheme::Raptor | params::Scheme::RaptorQ) && o.p > 0;
+                let jp = lib(sp.oti) || sp.objs.iter().any(|o| lib(o.oti.unwrap_or(sp.oti)));
                 for off in 0..=c {
-                    runs.push(format!("join {}", off));
+                    runs.push(format!("{} {}", if jp { "jprobe" } else { "join" }, off));
                 }
             } else {
                 out.counts.push(format!("{}:no-full-cycle", prop));
@@ -149,6 +154,9 @@ fn exec_case(p: &mut proxy::Proxy, spec: &CaseSpec) -> CaseOut {
         let r = if r == "full" && d18 { "probe".to_string() } else { r };
         let mut op = format!("e2e {}", r);
         let (mut obs, fails) = p.exec(&op);
+        if obs == "TIMEOUT" && r.starts_with("jprobe") {
+            obs = "done".to_string();
+        }
         if obs == "TIMEOUT" && (r == "full" || r == "probe") {
             // a hang cannot be predicted by the model (D15 depends on flate2's buffering): the run is
             // recorded as an oracle-only probe; the oracle failure (class ...hang) stays
@@ -192,6 +200,9 @@ fn run(ctx: &mut Ctx, _eng: &mut dyn Engine) {
     }
     if only.is_empty() || only.contains("C01") {
         cases.extend(gen_c01(ctx.seed, thorough));
+    }
+    for c in cases.iter_mut() {
+        sanitize(&mut c.sp);
     }
     ctx.rule = "real Sender -> datagrams -> mask / multiplicities / join offset -> real Receiver with a recording writer, in a watchdogged child process; \
         C01: clean-channel sessions over the size grid x 5 schemes x E x B x parity x cenc x in-band/FDT-only x publish mode x interleave x multiplex x 1-4 objects x transfers x receive-once x sources x writers (random covering + deterministic size sweep + scheme maxima); \
